@@ -134,7 +134,11 @@ def _nz(t):
 triple = st.tuples(_idx, _idx, _idx).map(_nz)
 small_triple = st.tuples(_small, _small, _small).map(_nz)
 _shape = st.sampled_from(['0', 'N', 'N', 'MN', 'MN'])
-_form = st.sampled_from(['list', 'int', 'float'])
+# input forms of an index array: nested list, int64 / integer-valued float64 C array (the original three), and the other
+# documented "array-like" forms: nested tuples, int32 array, non-contiguous view, Fortran order, read-only array, list of
+# numpy integer scalars
+_form = st.sampled_from(['list', 'list', 'list', 'int', 'int', 'int', 'float', 'float', 'tuple', 'i32', 'nc', 'fortran',
+                         'ro', 'npscalars'])
 
 
 @st.composite
@@ -195,6 +199,150 @@ def random_cases(draw):
         if case['form'] == 'float':
             case['form'] = 'int'
     return case
+
+
+_random_cases = random_cases()
+
+
+# ----------------------------------------------------------------------------- histories
+#
+# box_history: ONE Box object (optionally held by a System) is built, queried, modified in place through every public
+# route, queried again (same planes / vectors / family), copied, replaced ...  A step is a dict with key 'k':
+#   q       query: 'what' normal | vector | family | read, 'sel' bitmask over the case's plane pool (0 = all)
+#   mod     in-place change of the cell: 'how' (index into the routes that apply to the cell), 'cell', 'form', 'sys', 'origin', 'omit'
+#   origin  only the origin is changed (the cell is not)             default  box.set() -> unit cube
+#   scribble  write into arrays that atomman handed out (vects, avect, earlier results): must not change anything
+#   new     the object is dropped and a fresh Box of another cell takes its place      copy  deepcopy, continue on the copy
+# cells are the family cells of the other clauses or {'family': 'intvects', 'vects': 3x3 whole numbers, 'rot': None}.
+
+_fam_generic = gens.family_params()
+_i5_9 = st.integers(5, 9)
+_off = st.sampled_from([0, 0, 1, -1, 2, -2])
+_i0_9 = st.integers(0, 9)
+_i0_31 = st.integers(0, 31)
+_i0_99 = st.integers(0, 99)
+_origin = st.one_of(st.none(), st.lists(gens.nice(-5.0, 5.0, 2), min_size=3, max_size=3), st.lists(st.integers(-4, 4), min_size=3, max_size=3))
+_origin3 = st.lists(st.one_of(gens.nice(-5.0, 5.0, 2), st.integers(-4, 4).map(float)), min_size=3, max_size=3)
+_vform = st.sampled_from(['arr', 'arr', 'list', 'tuple', 'fortran', 'nc', 'ro', 'int'])
+_qwhat = st.sampled_from(['normal', 'normal', 'normal', 'normal', 'vector', 'family', 'read'])
+_planes_pool = st.lists(triple, min_size=1, max_size=5)
+_uvw_pool = st.lists(small_triple, min_size=1, max_size=3)
+_holder = st.sampled_from(['box', 'box', 'system'])
+_nmods = st.sampled_from([1, 1, 2, 3])
+_nq = st.sampled_from([1, 1, 2])
+_qshape = st.sampled_from(['N', 'N', '0', 'MN'])
+
+
+def _hist_cell(draw, prev=None):
+    """a cell for a history: independent (family cell, a quarter hexagonal, a sixth with whole-number vectors), or - when
+    there is a previous cell - the same lattice rigidly rotated (same a, b, c, angles: only the orientation changes), or
+    the very same cell again"""
+    k = draw(_i0_9)
+    if prev is not None and 'abc' in prev and k == 0:
+        return {'family': prev['family'], 'abc': prev['abc'], 'rot': draw(_rot_or_none), 'rel': 'rotated_prev'}
+    if prev is not None and k == 1:
+        return dict(prev, rel='same')
+    if k == 2:
+        d = [draw(_i5_9) for _ in range(3)]
+        o = [draw(_off) for _ in range(6)]
+        return {'family': 'intvects', 'vects': [[d[0], o[0], o[1]], [o[2], d[1], o[3]], [o[4], o[5], d[2]]], 'rot': None}
+    if k <= 4:
+        fp = draw(_fam_hex)
+    elif k <= 6:
+        fp = draw(_fam_skew) if k == 5 else draw(_fam_tri)
+    else:
+        fp = draw(_fam_generic)
+    return {'family': fp['family'], 'abc': fp['abc'], 'rot': draw(_rot_or_none)}
+
+
+@st.composite
+def _query(draw):
+    return {'k': 'q', 'what': draw(_qwhat), 'sel': 0 if draw(_bool) else draw(_i0_31), 'via': draw(_via),
+            'four': draw(_i03) == 0, 'form': draw(_form), 'shape': draw(_qshape), 'den': draw(_den), 'perm': draw(_i0_99)}
+
+
+_query_s = _query()
+
+
+@st.composite
+def box_history_cases(draw):
+    cell0 = _hist_cell(draw)
+    case = {'cell': cell0, 'form0': draw(_vform), 'holder': draw(_holder), 'planes': draw(_planes_pool), 'uvw': draw(_uvw_pool)}
+    steps = [draw(_query_s) for _ in range(draw(_nq))]
+    prev = cell0
+    for _ in range(draw(_nmods)):
+        k = draw(_i0_9)
+        if k == 0:
+            steps.append({'k': 'origin', 'o': draw(_origin3), 'via': draw(_via)})
+        elif k == 1:
+            steps.append({'k': 'scribble'})
+        elif k == 2:
+            steps.append(draw(_query_s))
+        k = draw(_i0_9)
+        if k == 0:
+            steps.append({'k': 'default'})
+            prev = None
+        elif k == 1:
+            prev = _hist_cell(draw, prev)
+            steps.append({'k': 'new', 'cell': prev, 'form': draw(_vform)})
+        elif k == 2:
+            steps.append({'k': 'copy'})
+            prev = _hist_cell(draw, prev)
+            steps.append({'k': 'mod', 'how': draw(_i0_99), 'cell': prev, 'form': draw(_vform), 'sys': draw(_i02),
+                          'origin': draw(_origin), 'omit': draw(_bool)})
+        else:
+            prev = _hist_cell(draw, prev)
+            steps.append({'k': 'mod', 'how': draw(_i0_99), 'cell': prev, 'form': draw(_vform), 'sys': draw(_i02),
+                          'origin': draw(_origin), 'omit': draw(_bool)})
+        steps += [draw(_query_s) for _ in range(draw(_nq))]
+    case['steps'] = steps
+    return case
+
+
+# call_history: a sequence of module-level calls in one process, each a complete case of another clause ('random', 'strings',
+# 'family'), judged by that clause's oracle; the oracle then repeats every call in another order.  Half of the sequences are
+# 'related': the same index block sent through the same operation with one ingredient changed (other centring setting, the
+# same lattice in another orientation, another lattice in the same orientation, the identical call again).
+
+_seqlen = st.sampled_from([2, 3, 3, 4, 5])
+
+
+@st.composite
+def call_history_cases(draw):
+    n = draw(_seqlen)
+    ops = []
+    if draw(_bool):
+        base = draw(_random_cases)
+        ops.append(['random', base])
+        for _ in range(n - 1):
+            v = dict(base)
+            k = draw(_i03)
+            if base['op'] == 'centering':
+                v['setting'] = draw(_setting)
+            elif base['op'] in ('normal', 'vector'):
+                c = base['cell']
+                if k == 0:
+                    v['cell'] = {'family': c['family'], 'abc': c['abc'], 'rot': draw(_rot_or_none)}
+                elif k == 1:
+                    fp = draw(_fam_hex) if c['family'] == 'hexagonal' else draw(_fam_generic)
+                    v['cell'] = {'family': fp['family'], 'abc': fp['abc'], 'rot': c['rot']}
+                v['via'] = draw(_via)
+            elif base['op'] == 'reduce':
+                v['mult'] = draw(_mult)
+            v['form'] = draw(_form)
+            if base['op'] == 'reduce' and v['form'] == 'float':
+                v['form'] = 'int'
+            ops.append(['random', v])
+        return {'related': True, 'ops': ops, 'order': draw(_i0_99)}
+    for _ in range(n):
+        k = draw(_i0_9)
+        if k == 0:
+            ops.append(['strings', draw(_string_cases)])
+        elif k == 1:
+            ops.append(['family', draw(_family_cases)])
+        else:
+            ops.append(['random', draw(_random_cases)])
+    return {'related': False, 'ops': ops, 'order': draw(_i0_99)}
 
 
 # ----------------------------------------------------------------------------- family
@@ -293,6 +441,7 @@ def wide_strings(draw):
 
 _wide_strings = wide_strings()
 _string_cases = string_cases()
+_family_cases = family_cases()
 
 
 @st.composite
